@@ -464,6 +464,17 @@ RCP<const Basic> build(const J &t)
                         t.geti("n", 1) != 0);
         return sdiff(e, x, t.geti("n", 1) != 0);
     }
+    // refine(e, statements...) / simplify(e, statements...)
+    if (k == "refine" || k == "simplify") {
+        RCP<const Basic> e = build(a.a[0]);
+        set_basic st;
+        for (size_t i = 1; i < a.a.size(); i++)
+            st.insert(build(a.a[i]));
+        Assumptions as(st);
+        if (k == "refine")
+            return refine(e, &as);
+        return simplify(e, a.a.size() > 1 ? &as : nullptr);
+    }
     if (k == "subs" || k == "xreplace" || k == "msubs" || k == "ssubs") {
         RCP<const Basic> e = build(a.a[0]);
         map_basic_basic m;
